@@ -342,3 +342,16 @@ mod tests {
         assert!(GraphQLParser::parse(Rule::const_list, "[123.0123e77abc]").is_err());
     }
 }
+
+#[cfg(feature = "verif-hooks")]
+#[doc(hidden)]
+#[allow(missing_docs)]
+pub mod verif_hooks {
+    pub fn string_value(s: &str) -> String {
+        super::utils::string_value(s)
+    }
+
+    pub fn block_string_value(raw: &str) -> String {
+        super::utils::block_string_value(raw)
+    }
+}
